@@ -24,7 +24,8 @@ EXPLANATION = (
     ' (R7) an acquisition attempt reports success only after its own lock primitive completed normally (exception-aware set domination), and the state flag release()/is_held() rely on is set then.'
     " (R8) the S3 lock owner token is a uuid4 drawn in the provider's own __init__; (R9) the lock directory is named only as the argument of create_lock; (R10) every provider a backend's create_lock builds is built on the canonical resolution of the path."
     ' (R11) the O_EXCL fallback lock is broken only under `age > k * timeout`.'
-    ' (R12) lock ages use UTC-aware clocks (C20.R11); (R13) release() lets go on every path past its guard, exception edges included; (R14) the polling provider deletes an expired lock only when BOTH LastModified and ETag of the second HEAD equal the first (separately, or as one tuple / NamedTuple built the same way); R3/R4/R5 look through helpers returning the PUT response and through boolean record fields carrying `content == lock_id`.')
+    ' (R12) lock ages use UTC-aware clocks (C20.R11); (R13) release() lets go on every path past its guard, exception edges included; (R14) the polling provider deletes an expired lock only when BOTH LastModified and ETag of the second HEAD equal the first (separately, or as one tuple / NamedTuple built the same way); R3/R4/R5 look through helpers returning the PUT response and through boolean record fields carrying `content == lock_id`.'
+    " R10 holds on EVERY way the provider's path argument gets its value.")
 NOT_DECIDED = "kernel / S3 semantics, interleavings, numeric timeout bounds"
 
 
@@ -94,9 +95,15 @@ def lock_identity_canonical(ctx: Ctx, rid: str = "C19.R10") -> None:
             args = list(c.ast.args) + [k.value for k in c.ast.keywords]  # type: ignore[union-attr]
             hit = False
             for a in args:
-                org = sl.origins(a, c.id)
-                if any(isinstance(x, ast.Call) and isinstance(x.func, ast.Attribute) and x.func.attr == resolver and x.args
-                       and pname in names_in(x.args[0]) for x in org["calls"]):
+                # on EVERY way the argument can get its value (locals, helper returns analysed in place)
+                srcs = resolve_value(ctx, f, a, c.id)
+                per_src = []
+                for src, sat in srcs:
+                    org = sl.origins(src, sat) if src is not None else {"calls": set()}
+                    cs = set(org["calls"]) | ({src} if isinstance(src, ast.Call) else set())
+                    per_src.append(any(isinstance(x, ast.Call) and isinstance(x.func, ast.Attribute) and x.func.attr == resolver and x.args
+                                       and (pname in names_in(x.args[0]) or pname in sl.origins(x.args[0], sat)["names"]) for x in cs))
+                if per_src and all(per_src):
                     hit = True
             ctx.ob(rid, f, f"lock provider built on {resolver}({pname})", c, hit,
                    "the lock's identity is the canonical location" if hit else
